@@ -3,7 +3,7 @@ import json
 from . import common as C, arb
 
 # row layout of Arb.Cases.arb_case
-ID, MASK, MFIN, FIRST, SP_H, SP_L, SPA_H, SPA_L, OI, NEV = range(10)
+ID, MASK, MFIN, FIRST, SP_H, SP_L, SPA_H, SPA_L, OI, NEV, VH, TR = range(12)
 # components of the model that C01's theorems talk about: hosts (4) and resources incl. ValidHosts (16)
 RELEVANT = 4 | 16
 
@@ -36,6 +36,10 @@ def judge(run, cases, rows):
             run.failing({"kind": "owner-not-least"}, [c],
                         "C01: after step %d of case %d the owner of some host in Configuration.hosts is not the least claimant (or a claimed host has no owner)"
                         % (r[SP_H], c["id"]), theorem="Arb.Spec.hosts_spec_ok")
+        elif r[VH] != 0:
+            run.failing({"kind": "valid-hosts"}, [c],
+                        "C01: after step %d of case %d an Ingress in GetResources() is rendered with a host the host map gives to another resource (or without a host it owns): "
+                        "ValidHosts disagrees with Configuration.hosts" % (r[VH], c["id"]), theorem="Arb.Cases.valid_hosts_ok")
         elif r[OI] == 0:
             run.failing({"kind": "order-dependent"}, [c],
                         "C01: two histories of case %d that end in the same object set end with different hosts / resources on the implementation" % c["id"],
@@ -60,7 +64,8 @@ def check(run):
                        "(TCP/UDP/TLS passthrough) and GlobalConfiguration: create, update, resync, annotation-only change, class flip, invalidate, delete, "
                        "delete-absent, delete-and-recreate (new UID); 2 namespaces x 3 names x 5 hosts, creation times drawn from 3 values so ties are common; "
                        "each history is also replayed as a random interleaving that keeps per-key order and as `last event of every key in random order`. "
-                       "Distinct = distinct event list; non-trivial = some host had at least two valid class-matching claimants at some point.")
+                       "Distinct = distinct event list; non-trivial = some host had at least two valid class-matching claimants at some point. After every step also: the ValidHosts of every "
+                       "Ingress in GetResources() equal the hosts the host map assigns to it.")
     run.cov["trusted_base"] = arb.TRUSTED
     run.assumptions += ["K1: claimants of one host have distinct UIDs (hypothesis of C01_owner_is_least; the generator issues fresh UIDs)",
                         "validators / class predicate as oracles (verdicts of the real functions are fed to the model)"]
@@ -76,6 +81,8 @@ def replay(run, path):
         r = rows[c["id"]]
         print("replay case %d: disagreement mask main=%d final/alts=%d first step=%d; host-owner spec first failing step=%d (alts ok=%d); order-independent on impl=%d"
               % (c["id"], r[MASK], r[MFIN], r[FIRST], r[SP_H], r[SPA_H], r[OI]))
+        print("   ValidHosts vs host map first failing step=%d; (informative, not part of C01: first batch that, applied one change at a time, "
+              "configures one host for two resources for a moment: step %d)" % (r[VH], r[TR]))
         for h in c["histories"]:
             print("  %s: final hosts %s" % (h["label"], json.dumps(h["final"]["hosts"], sort_keys=True)))
     judge(run, cases, rows)
